@@ -13,11 +13,14 @@
                require_auth_for_args(("execute_op", contract, fn, args, pred, salt)) inside __check_auth.
    [require_auth] below is the host's dispatch; __check_auth is the contract's code.
 
-   Modelled as a refusal (never generated by the harness, stated in the theorems as
-   "x <> self"): an EXECUTOR role held by the controller itself.  The real host would
-   answer executor.require_auth_for_args inside __check_auth by a second, nested
-   __check_auth for a context (controller, "__check_auth", args); that recursion is not
-   modelled. *)
+   The controller itself may hold the EXECUTOR role (granted through the timelock).  Then a
+   descriptor may name the controller as executor: executor.require_auth_for_args(..) inside
+   __check_auth is answered by the host's invoker-contract rule - the frame that invoked
+   __check_auth is the controller's own entry point (auth.rs, maybe_check_invoker_contract_auth:
+   call_stack[len-2] is the address) - so NO signature of anybody is needed.  Only when
+   __check_auth is invoked directly by the test utility (no invoking frame, [direct] = true) the
+   host would look for a further authorisation entry of the controller; the harness attaches
+   none, which is a refusal. *)
 From SC Require Import Lib.Prelude Lib.Int Lib.Host Model.Timelock.
 
 Definition role := N.
@@ -214,6 +217,9 @@ Definition authz_of (c : call) : authz :=
   | Advance _ => AZ [] None []
   end.
 
+(* __check_auth invoked directly (test utility) rather than by the host inside an entry point *)
+Definition is_direct (c : call) : bool := match c with CheckAuth _ _ _ => true | _ => false end.
+
 Definition xa_has (xa : list (addr * op)) (x : addr) (o : op) : bool :=
   existsb (fun p => N.eqb (fst p) x && op_eqb (snd p) o) xa.
 
@@ -223,7 +229,7 @@ Section WithHash.
   Variable cf : cfg.
 
   (* ---- __check_auth, one (context, meta) pair of the loop ---- *)
-  Definition check_ctx (xa : list (addr * op)) (s : state) (c : ctx) (m : meta) : res state :=
+  Definition check_ctx (direct : bool) (xa : list (addr * op)) (s : state) (c : ctx) (m : meta) : res state :=
     match c with
     | CtxC contract f a =>
         if negb (N.eqb contract (self cf)) then Fail                       (* only self-administration *)
@@ -234,7 +240,8 @@ Section WithHash.
                         | None => Fail                                     (* expect("Executor must be present") *)
                         | Some x =>
                             if negb (holds (acs s) x EXECUTOR) then Fail    (* ensure_role *)
-                            else if N.eqb x (self cf) then Fail             (* the controller cannot sign inside its own __check_auth *)
+                            else if N.eqb x (self cf)
+                                 then (if direct then Fail else Ok tt)        (* invoker-contract authorisation *)
                             else guard (xa_has xa x o)                      (* executor.require_auth_for_args *)
                         end);
           do t <- set_execute_operation hash (ctl s) o;
@@ -242,20 +249,20 @@ Section WithHash.
     | CtxOther => Fail
     end.
 
-  Fixpoint check_loop (xa : list (addr * op)) (s : state) (l : list (ctx * meta)) : res state :=
+  Fixpoint check_loop (direct : bool) (xa : list (addr * op)) (s : state) (l : list (ctx * meta)) : res state :=
     match l with
     | [] => Ok s
-    | (c, m) :: r => do s' <- check_ctx xa s c m; check_loop xa s' r
+    | (c, m) :: r => do s' <- check_ctx direct xa s c m; check_loop direct xa s' r
     end.
 
   (* the code after fix fd487bd: one descriptor per authorised context *)
-  Definition check_auth (s : state) (metas : list meta) (ctxs : list ctx) (xa : list (addr * op)) : res state :=
+  Definition check_auth (direct : bool) (s : state) (metas : list meta) (ctxs : list ctx) (xa : list (addr * op)) : res state :=
     if negb (Nat.eqb (length metas) (length ctxs)) then Fail               (* TimelockError::Unauthorized *)
-    else check_loop xa s (combine ctxs metas).
+    else check_loop direct xa s (combine ctxs metas).
 
   (* the code before the fix: auth_contexts.iter().zip(context_meta) truncates silently *)
-  Definition check_auth_prefix (s : state) (metas : list meta) (ctxs : list ctx) (xa : list (addr * op)) : res state :=
-    check_loop xa s (combine ctxs metas).
+  Definition check_auth_prefix (direct : bool) (s : state) (metas : list meta) (ctxs : list ctx) (xa : list (addr * op)) : res state :=
+    check_loop direct xa s (combine ctxs metas).
 
   (* the operation a (context, descriptor) pair of __check_auth stands for *)
   Definition pair_op (p : ctx * meta) : option op :=
@@ -282,7 +289,7 @@ Section WithHash.
       match a_self au with
       | Some se =>
           if ctx_eqb (se_root se) root
-          then check_auth s (se_metas se) (se_root se :: se_subs se) (a_exec au)
+          then check_auth false s (se_metas se) (se_root se :: se_subs se) (a_exec au)
           else Fail
       | None => Fail
       end
@@ -432,7 +439,7 @@ Section WithHash.
                                      radmin := radmin a; existing := existing a |}, None)
         end
     | CheckAuth metas ctxs xa =>
-        do s1 <- check_auth s metas ctxs xa; Ok (s1, None)
+        do s1 <- check_auth true s metas ctxs xa; Ok (s1, None)
     | Advance n =>
         if (0 <=? n) && in_u32 (now_of s + n)
         then Ok (with_ctl s {| now := now_of s + n; min_delay := min_delay (ctl s); marks := marks (ctl s) |}, None)
@@ -443,7 +450,9 @@ Section WithHash.
      the controller's own address names this very invocation as its root, its first descriptor
      (predecessor, salt, executor) together with the invocation's function and arguments is an
      operation that was Ready before the call and is Done after it, whose predecessor is zero or
-     Done, and - when executors are configured - an executor holding the role signed for it *)
+     Done, and - when executors are configured - the descriptor names an account holding the
+     executor role that signed for it (or the controller itself, if IT holds the executor role:
+     the host then takes the controller's own running entry point as its authorisation) *)
   Definition consumes (s : state) (c : call) (s' : state) : Prop :=
     exists se m rest,
       a_self (authz_of c) = Some se /\ se_root se = root_of c /\ se_metas se = m :: rest /\
@@ -452,8 +461,8 @@ Section WithHash.
       state_of (ctl s) (hash o) = Ready /\ state_of (ctl s') (hash o) = Done /\
       (m_pred m = 0%N \/ state_of (ctl s') (m_pred m) = Done) /\
       (role_count (acs s) EXECUTOR <> 0 ->
-       exists x, m_exec m = Some x /\ holds (acs s) x EXECUTOR = true /\ x <> self cf /\
-                 xa_has (a_exec (authz_of c)) x o = true).
+       exists x, m_exec m = Some x /\ holds (acs s) x EXECUTOR = true /\
+                 (x = self cf \/ xa_has (a_exec (authz_of c)) x o = true)).
 
   Definition step (s : state) (c : call) : state * outcome :=
     match step_ok s c with
